@@ -90,20 +90,7 @@ func (w *World) execCopyTo(op *Op) bool {
 	n := src.m.NumItems()
 	if dst != nil && flushEvery > 0 {
 		// the destination file re-opens to the same state
-		saved := map[string]int{}
-		for k, v := range w.cmpLoad {
-			saved[k] = v
-		}
-		w.setCmpLoad(src.m)
-		cbs := w.cbs
-		cbs.ItemAlloc, cbs.ItemAddRef, cbs.ItemDecRef = nil, nil, nil
-		st2, err := g.NewStoreEx(dst.CloneQuiet(), cbs)
-		for k := range w.cmpLoad {
-			delete(w.cmpLoad, k)
-		}
-		for k, v := range saved {
-			w.cmpLoad[k] = v
-		}
+		st2, err := w.openCopy(dst, src.m)
 		if err != nil {
 			w.failf("copyto-reopen", "re-opening the CopyTo destination file failed: %v", err)
 		}
